@@ -320,7 +320,7 @@ def C02(ctx):
     q = ctx.quick
     pipeline_mc(ctx, q)
     req_campaign(ctx, [("spell", 0), ("base", 0 if q else 1), ("midnight", 0), ("window", 0 if q else 1), ("fold", 1),
-                       ("s3hash", 0), ("dup", 0), ("expires", 0), ("cfgmix", 0, 13 if q else 1)])
+                       ("s3hash", 0), ("dup", 0), ("manyparams", 0), ("expires", 0), ("cfgmix", 0, 13 if q else 1)])
     suite_campaign(ctx)
     logical_campaign(ctx, 400 if q else 20000)
     return dict(
@@ -666,7 +666,7 @@ def C18(ctx):
 
 def C19(ctx):
     q = ctx.quick
-    req_campaign(ctx, [("dup", 0)])
+    req_campaign(ctx, [("dup", 0), ("manyparams", 0)])
     return dict(
         rule="E: 60 requests in which one authentication input is repeated with differing values, in both orders, built "
              "so that exactly one selection makes the signature valid: Authorization header x2 (AWS4 + Basic / AWS4 + "
